@@ -489,6 +489,11 @@ impl Heap {
     }
 
     fn collect_if_required(&mut self) {
+        #[cfg(feature = "verif_hooks")]
+        if verif::pace_at_every_allocation() {
+            self.collect();
+            return;
+        }
         if self.bytes_allocated >= self.collection_threshold {
             self.collect();
         }
@@ -662,6 +667,7 @@ pub mod verif {
         mode: GcMode,
         force: bool,
         quarantine: bool,
+        pace_every: bool,
         alloc_index: usize,
         collections: usize,
         events: Vec<String>,
@@ -677,6 +683,7 @@ pub mod verif {
             mode: GcMode::Default,
             force: false,
             quarantine: false,
+            pace_every: false,
             alloc_index: 0,
             collections: 0,
             events: Vec::new(),
@@ -694,6 +701,16 @@ pub mod verif {
 
     pub fn set_quarantine(on: bool) {
         STATE.with(|s| s.borrow_mut().quarantine = on);
+    }
+
+    /// Threshold-paced builds: treat the threshold as reached at every allocation, so that the paced
+    /// path (`collect_if_required`) collects wherever it is called from.
+    pub fn set_pace_at_every_allocation(on: bool) {
+        STATE.with(|s| s.borrow_mut().pace_every = on);
+    }
+
+    pub(super) fn pace_at_every_allocation() -> bool {
+        STATE.with(|s| s.borrow().pace_every)
     }
 
     pub fn set_alloc_log(on: bool) {
